@@ -45,6 +45,9 @@ def history(r, maxlen=60, ops=OPS, weights=None):
             op = r.choice(["u32", "u64", "f32", "f64", "fill"])
         if op == "fill":
             op = "fill:%d" % fill_len(r)
+            if r.chance(1, 12):
+                # the typed entry points inside a history: zero-sized elements / `random_bytes::<()>()` (no bytes: no draw either), u32 elements
+                op = r.choice(["zfill:%d" % r.choice([0, 1, 3, 5]), "zrb", "tfill:%d" % r.below(7)])
         out.append(op)
     return out
 
@@ -116,6 +119,8 @@ def corpus(build):
         "word gen=xoshiro seed=42 via=seeded ops=u32",
         "word gen=splitmix seed=42 via=from_seed ops=u32",
         "word gen=wyrand seed=42 via=from_seed ops=u32",
+        "word gen=xoshiro seed=0 via=from_seed ops=zfill:3,u64,zrb,u32,tfill:3,u64,zfill:0,f64", "word gen=wyrand seed=5 via=from_seed ops=u64,zfill:5,u64,zrb,u64",
+        "word gen=splitmix seed=5 via=from_seed ops=zrb,u64,tfill:1,u64",
         "word gen=xoshiro seed=0 via=from_seed ops=fill:0,fill:1,fill:2,fill:3,fill:4,fill:5,fill:6,fill:7,fill:8,fill:9,fill:15,fill:16,fill:17",
         "word gen=wyrand seed=18446744073709551615 via=from_seed ops=jump,u64,split,u64,clone",
     ]
